@@ -32,6 +32,8 @@ def ab_check(ctx, exe, name, base, describe):
     """engine with `save; load` at every boundary k must answer like the uninterrupted run"""
     A, crashA, infoA = common.run_lines(exe, [], base, timeout=30)
     runs = 1
+    if not crashA and (len(A) < 3 or not A[1].startswith("ok") or not A[2].startswith("ok")):
+        return runs, ("generator", "generated program does not compile / start: " + " | ".join(A[1:3]), base, A, [], "generator-invalid-program", "")
     if crashA:
         return runs, ("crash", "uninterrupted run crashed: " + crashA, base, A, [], crashA, infoA)
     for k in range(3, len(base)):
